@@ -5,6 +5,7 @@ import PP.Model.Loop
 import PP.Driver.OpsC19
 import PP.Driver.OpsC18
 import PP.Driver.OpsC17
+import PP.Driver.OpsC20
 /-
 Request handlers of the model driver.
 -/
@@ -162,6 +163,9 @@ def handle (j : Json) : Except String Json := do
       | none =>
         match PP.OpsC17.handle op j with
         | some r => r
-        | none => throw s!"unknown op {op}"
+        | none =>
+          match PP.OpsC20.handle op j with
+          | some r => r
+          | none => throw s!"unknown op {op}"
 
 end PP.Ops
